@@ -29,6 +29,9 @@ fn dispatch(req: &Value) -> Value {
         "cfmt_cell" => fmtops::cfmt_cell(req),
         "fmt_cell" => fmtops::fmt_cell(req),
         "repr" => fmtops::repr(req),
+        "float_fmt" => fmtops::float_fmt(req),
+        "float_repr" => fmtops::float_repr(req),
+        "float_parse" => fmtops::float_parse(req),
         "const_parse" => fmtops::const_parse(req),
         "args_conv" => astops::args_conv(req),
         "lex" => syn::lex(req),
